@@ -1296,9 +1296,18 @@ def run(ctx: Ctx) -> None:
     )
     viols: list = []
 
-    # one pool for both parts (control terms first, simplest first)
-    bound = 4 if thorough else 3
+    # two pools with their own time caps, so that neither part can starve
+    # the other on a loaded machine
     terms = all_terms(thorough)
+
+    def bound_of(t: list) -> int:
+        # thorough: outcome sequences of length <= 4, except <= 3 for the
+        # three-slot terms (their script spaces multiply)
+        if not thorough:
+            return 3
+        wide = (t[0] == 'wf' and len(t[1]) > 2) or \
+            (t[0] == 'par' and len(t[2]) > 2)
+        return 3 if wide else 4
     items = foreach_items(thorough)
     nfull = sum(1 for _, w in items if w == 'full')
     chunk = 2 if thorough else 4
@@ -1306,28 +1315,53 @@ def run(ctx: Ctx) -> None:
     red = [it for it in items if it[1] == 'reduced']
     fwork = [full[i:i + chunk] for i in range(0, len(full), chunk)] + \
         [red[i:i + 8 * chunk] for i in range(0, len(red), 8 * chunk)]
-    work = [('control', (t, bound)) for t in terms] + \
-        [('foreach', (w, thorough)) for w in fwork]
-    deadline = ctx.t0 + (1700 if thorough else 85)
     done = 0
     done_inputs = 0
     maxcalls = 0
     agg: dict = {'per_body': {}, 'per_cf': {}, 'per_rf': {}}
     tot = {'replaced': 0, 'blocks': 0, 'errpos': 0, 'alone': 0,
            'adjacent': 0, 'skipped': 0}
-    for part, r in pmap(dispatch, work, procs=ctx.procs, deadline=deadline):
+    # the simplest cases run right here, before any pool exists: whatever
+    # the machine is doing, the run has judged something
+    n_inline = 8
+    for t in terms[:n_inline]:
+        r = control_worker((t, bound_of(t)))
+        _merge(ctx, 'control', r, viols)
+        done += 1
+        maxcalls = max(maxcalls, r['maxcalls'])
+        ctx.part('control', terms=1, runs=r['runs'])
+    first = fwork[0][:1]
+    fwork[0] = fwork[0][1:]
+    r = foreach_worker((first, thorough))
+    _merge(ctx, 'foreach', r, viols)
+    done_inputs += r['inputs']
+    for nm in agg:
+        for k, v in r[nm].items():
+            agg[nm][k] = agg[nm].get(k, 0) + v
+    for k in tot:
+        tot[k] += r[k]
+    for part, r in pmap(
+            dispatch,
+            [('control', (t, bound_of(t))) for t in terms[n_inline:]],
+            procs=ctx.procs,
+            deadline=ctx.t0 + (600 if thorough else 40)):
         _merge(ctx, part, r, viols)
-        if part == 'control':
-            done += 1
-            maxcalls = max(maxcalls, r['maxcalls'])
-            ctx.part('control', terms=1, runs=r['runs'])
-        else:
-            done_inputs += r['inputs']
-            for nm in agg:
-                for k, v in r[nm].items():
-                    agg[nm][k] = agg[nm].get(k, 0) + v
-            for k in tot:
-                tot[k] += r[k]
+        done += 1
+        maxcalls = max(maxcalls, r['maxcalls'])
+        ctx.part('control', terms=1, runs=r['runs'])
+    ctx.part('control', wall_s=round(ctx.elapsed(), 1))
+    for part, r in pmap(
+            dispatch, [('foreach', (w, thorough)) for w in fwork if w],
+            procs=ctx.procs,
+            deadline=ctx.t0 + (1700 if thorough else 85)):
+        _merge(ctx, part, r, viols)
+        done_inputs += r['inputs']
+        for nm in agg:
+            for k, v in r[nm].items():
+                agg[nm][k] = agg[nm].get(k, 0) + v
+        for k in tot:
+            tot[k] += r[k]
+    bound = 4 if thorough else 3
     if done < len(terms):
         ctx.cap('control: %d of %d terms (simplest first) inside the time cap'
                 % (done, len(terms)))
@@ -1335,13 +1369,15 @@ def run(ctx: Ctx) -> None:
     for t in terms:
         kinds[KIND_NAME[t[0]]] = kinds.get(KIND_NAME[t[0]], 0) + 1
     ctx.part('control', terms_enumerated=len(terms), script_bound=bound,
+             script_bound_three_slot_terms=3,
              max_predicate_calls_in_a_run=maxcalls, outer_kinds=kinds,
              pick_first_terms=sum(1 for t in terms
                                   if t[0] == 'par' and t[3]))
     if done_inputs < len(items):
         ctx.cap('foreach: %d of %d inputs inside the time cap (hand-built '
                 'and shortest sequences first)' % (done_inputs, len(items)))
-    ctx.part('foreach', inputs=done_inputs, inputs_enumerated=len(items),
+    ctx.part('foreach', wall_s=round(ctx.elapsed(), 1),
+             inputs=done_inputs, inputs_enumerated=len(items),
              inputs_full_config=nfull,
              configs_full=len(cfgs_full(thorough)),
              configs_reduced=len(cfgs_reduced()),
